@@ -293,6 +293,8 @@ def replay(prop: str, path: str) -> int:
         case = {"tps": c["tps"], "cpus": F(c["c2"], 2), "ram": F(c["ram"], 1000),
                 "ops": [[{"law": g["law"], "base": F(g["bnum"], g["bden"]), "read": F(g["read"], 1000), "fixed": None if g["fixed"] < 0 else F(g["fixed"], 1000)}
                          for g in o["segs"]] for o in c["ops"]]}
+        if c.get("warm"):
+            case["warm"] = c["warm"]
         files = common.write_shards([[driver_timing.run_case(case, 0)]], 1, "rt")
         mon = common.run_monitor("TraceTiming", "TraceTiming.cfg", files)
         for v in mon.viols:
